@@ -159,3 +159,23 @@ def run_vcd(repo,seed,tier,procs=16):
          "the VCD symbol generator (extracted from the real source) yields 100000 pairwise distinct printable symbols")
   return [dict(key="zoo::vcd",ok=True,error=None,obligations=[],kind='bounded-standin',lines=None,ast_hash=None,info=None,time=sum(r['time'] for r in res),is_standin=True,
                standin=dict(evaluations=len(res)+1,failures=fails,bound=bound,per_case={}))]
+
+def _tcjob(a):
+  repo,name,body=a
+  if repo not in sys.path: sys.path.insert(0,repo)
+  from zoo import tccheck
+  t0=time.time()
+  try: v,acc=tccheck.check_block(name,body,repo)
+  except Exception as e: v=[f"the probe could not be checked: {type(e).__name__}: {str(e)[:160]}"]; acc=False
+  return dict(design=name,failed=v,accepted=acc,time=time.time()-t0,body=body)
+
+def run_tc(repo,seed,tier,procs=16):
+  from zoo import tccheck
+  bl=tccheck.blocks()
+  with Pool(min(procs,len(bl))) as p: res=p.map(_tcjob,[(repo,n,b) for n,b in bl],chunksize=8)
+  fails=[dict(args={'design':r['design']},failed=[m],custom=dict(kind='custom',module='zoo.replay',entry='replay_tc',design=r['design'],body=r['body'])) for r in res for m in r['failed'][:1]]
+  bound=(f"{len(bl)} update blocks (assignment, + & == <, conditional expressions with explicit/literal branches also nested in an addition, ascending and descending constant loops, "
+         f"temporaries; operands Bits4 / Bits8 signals, a 4-bit slice and literals 0..256): accepted by the RTLIR type checker => simulation over a 24-point input grid raises no width / implicit-truncation error; "
+         f"a runtime width mismatch between explicitly sized operands => rejected ({sum(r['accepted'] for r in res)} accepted)")
+  return [dict(key="zoo::typecheck",ok=True,error=None,obligations=[],kind='bounded-standin',lines=None,ast_hash=None,info=None,time=sum(r['time'] for r in res),is_standin=True,
+               standin=dict(evaluations=len(res),failures=fails,bound=bound,per_case={}))]
